@@ -69,6 +69,11 @@ def cases(tier, seed):
             out.append({"part": "wait", "frames": frames, "filter": flt, "P": P})
     for frames in ([0x2010, 0x0000], [0x0000], [0x2010]):
         out.append({"part": "wait", "frames": frames, "filter": 0x0000, "P": P})
+    # the application resets the consumer (log and active list emptied) while a thread waits, with entries logged before
+    for frames in (["R", 0x2010], [0x3020, "R", 0x2010], ["R", 0x2010, 0x2010]):
+        for flt in (None, 0x2010):
+            for pre in (1, 3):
+                out.append({"part": "wait", "frames": frames, "filter": flt, "P": P, "pre": pre})
     return out
 
 
@@ -308,6 +313,8 @@ def run_wait(case, st):
     def harness(s):
         c = emcy_mod.EmcyConsumer()
         c.emcy_received = NotingCondition()
+        for k_ in range(case.get("pre", 0)):
+            c.on_emcy(0x85, struct.pack("<HB5s", 0x2010, 1, b"older"), 1.0 + k_)      # history before anybody waits
         t0 = simenv.W.now
 
         def waiter():
@@ -315,8 +322,13 @@ def run_wait(case, st):
             return (None if r is None else (r.code, r.timestamp), round(simenv.W.now - t0, 3))
 
         def receiver():
-            for i, code in enumerate(frames):
+            i = 0
+            for code in frames:
+                if code == "R":
+                    c.reset()
+                    continue
                 c.on_emcy(0x85, struct.pack("<HB5s", code, 1, b"abcde"), 10.0 + i)
+                i += 1
         wt = s.spawn(waiter, "waiter")
         s.spawn(receiver, "receiver")
         return lambda: (wt.res if wt.exc is None else ("EXC", repr(wt.exc)[:80]), tuple(s.events), s.deadlock)
@@ -327,7 +339,7 @@ def run_wait(case, st):
         st.traces += 1
         st.transitions += len(s.trace)
         if s.pre:
-            st.nontrivial.add(("wait", tuple(frames), flt, tuple(t[1] for t in s.trace)))
+            st.nontrivial.add(("wait", tuple(frames), flt, case.get("pre", 0), tuple(t[1] for t in s.trace)))
         rc = dict(case, schedule=[t[1] for t in s.trace])
         if deadlock:
             st.violation("C16:wait:deadlock", rc, "no deadlock", deadlock)
@@ -338,10 +350,20 @@ def run_wait(case, st):
         first_wait = next((i for i, e in enumerate(events) if e[0] == "wait-enter"), None)
         # receiver critical sections after the waiter started waiting, in order = frames processed during the wait
         n_before = sum(1 for i, e in enumerate(events) if e == ("cs-enter", "receiver") and (first_wait is None or i < first_wait))
-        during = [(code, 10.0 + i) for i, code in enumerate(frames)][n_before:]
+        during = [(code, 10.0 + i) for i, code in enumerate(f for f in frames if f != "R")][n_before:]
         matching = [e for e in during if flt is None or e[0] == flt]
         got, t = res
         st.outcome(f"filter={'none' if flt is None else hex(flt)} matching-during={len(matching)} -> {'entry' if got else 'None'}")
+        if "R" in frames:
+            # a reset while waiting: entries logged before the reset may be forgotten before the waiter saw them, but an
+            # entry that arrives after the last reset (and during the wait) must be handed over
+            n_after = len([f for f in frames[len(frames) - frames[::-1].index("R"):] if f != "R"])
+            after = [e for e in during[max(len(during) - n_after, 0):] if flt is None or e[0] == flt]
+            allowed = set(matching[:1]) | set(after[:1]) | (set() if after else {None})
+            if got not in allowed:
+                st.violation(f"C16:wait:reset-while-waiting:{'none-although-entry-arrived-after-the-reset' if got is None else 'wrong-entry'}",
+                             rc, f"one of {sorted(allowed, key=str)} (during: {during})", f"{got} at t={t}")
+            return
         if matching:
             if got != matching[0]:
                 kind = "none-although-matching-entry-arrived" if got is None else "not-the-next-matching-entry"
